@@ -190,6 +190,9 @@ R('r_serde', ['C20'], ['serde::Deserialize for HashMap', 'serde::Deserialize for
 
 VERUS = {
     # unit -> dict(props, widths, tier, desc)
+    'ctrl': dict(props=['C01', 'C06', 'C13', 'C02', 'C10', 'C18'], tier='quick',
+                 desc='control-byte logic of the table core on extracted text over a Vec<u8> view of the control array, all table sizes, both widths: set_ctrl (mirror index, mirror invariant, frame), set_ctrl_hash, replace_ctrl_hash, is_bucket_full, record_item_insert_at (accounting F1), erase (EMPTY/DELETED, accounting, frame, no tombstone below one group), Tag, probe_seq; every control-byte access in bounds',
+                 paired={}),
     'arith': dict(props=['C17', 'C08', 'C12', 'C13'], tier='quick',
                   desc='capacity / layout / probe-step arithmetic and lemmas, all inputs, both group widths',
                   # Verus function -> the complete CBMC obligation proving the same contract (used for the
